@@ -208,6 +208,52 @@ func badHeaderCase(r *vh.Rand, fm string) string {
 	return fmt.Sprintf("badhdr %s %s %d %s", fm, vh.Hex(file), len(good), toks)
 }
 
+// scenario template functions with boundary arguments
+func tfuncCases() []string {
+	nums := []string{"0", "1", "5", "10", "-1", "-5", "100", "9223372036854775807", "-9223372036854775808", "9223372036854775800", "-9223372036854775800", "4611686018427387904"}
+	var out []string
+	add := func(s string) { out = append(out, "tfunc "+vh.HexS(s)) }
+	add("randInt()")
+	add("randInt")
+	add("uuid()")
+	add("uuid(1)")
+	for _, a := range nums {
+		add("randInt(" + a + ")")
+		for _, b := range nums {
+			add("randInt(" + a + ", " + b + ")")
+		}
+	}
+	for _, s := range []string{"randInt(x)", "randInt(1,2,3)", "randInt(1.5)", "randInt(,)", "randInt(", "randInt(5,5", "randInt(99999999999999999999)",
+		"randString()", "randString(0)", "randString(1)", "randString(5)", "randString(-1)", "randString(-9223372036854775808)", "randString(3, ab)", "randString(3, )",
+		"randString(x)", "randString(1,2,3)", "randString(2, ü)", "nope(1)", "", "randInt(5,5)", "randInt(-3,-3)"} {
+		add(s)
+	}
+	return out
+}
+
+// sources without a single entry: every format x preload x passes x limit
+func noSourceCases() []string {
+	files := map[string][]string{
+		"uri":     {"", "\n", "  \n\r\n", "[A: b]\n", "[A: b]\n\n[Host: x]", "\t"},
+		"uripost": {"", "\n", "  \n\r\n", "[A: b]\n", "[A: b]\n\n[Host: x]", "\t"},
+		"raw":     {"", "\n\n", " \r\n", "\t"},
+		"json":    {"", "[]", " ", "\n", "[ ]\n"},
+	}
+	var out []string
+	for _, fm := range []string{"uri", "uripost", "raw", "json"} {
+		for _, f := range files[fm] {
+			for _, pre := range []string{"0", "1"} {
+				for _, ps := range []string{"0", "1", "2"} {
+					for _, lim := range []string{"0", "3"} {
+						out = append(out, fmt.Sprintf("nosrc %s %s %s %s %s", fm, pre, ps, lim, vh.HexS(f)))
+					}
+				}
+			}
+		}
+	}
+	return out
+}
+
 var shootPool = []string{"a", "b", "c", "a(2)", "a(2,10)", "b( 3 , 5 )", "sleep(10)", "sleep(0)", "sleep", "sleepy(2)", "a()", "a(,7)", "a(0)", "a(-1)", "c(1,-5)",
 	"a(", "a)", ")a(", "a(1))", "a((1)", "a(1,2,3)", "(3)", "a(x)", "a(1,y)", "zz", "zz(1)", "", " a ( 2 ) ", "a(99999999999999999999)", "a(1)b", "ü(1)", "a(+2)", "a(1.5)", "A"}
 
@@ -231,6 +277,8 @@ func gen(r *vh.Rand, tier string) []string {
 	for _, h := range otherHeaders {
 		out = append(out, "cfghdr "+vh.HexS(h))
 	}
+	out = append(out, tfuncCases()...)
+	out = append(out, noSourceCases()...)
 	formats := []string{"uri", "uripost", "raw", "json"}
 	for i := 0; i < n; i++ {
 		for _, fm := range formats {
